@@ -529,19 +529,32 @@ static ares_status_t ares_append_requeue(ares_array_t **requeue,
                                          ares_server_t *server)
 {
   ares_requeue_t entry;
+  ares_status_t  status;
+
+  ares_query_remove_from_conn(query);
 
   if (*requeue == NULL) {
     *requeue = ares_array_create(sizeof(ares_requeue_t), NULL);
     if (*requeue == NULL) {
-      return ARES_ENOMEM;
+      status = ARES_ENOMEM;
+      goto fail;
     }
   }
 
-  ares_query_remove_from_conn(query);
-
   entry.qid    = query->qid;
   entry.server = server;
-  return ares_array_insertdata_last(*requeue, &entry);
+  status       = ares_array_insertdata_last(*requeue, &entry);
+  if (status == ARES_SUCCESS) {
+    return ARES_SUCCESS;
+  }
+
+fail:
+  /* The query could not be recorded for resending.  It is no longer attached
+   * to a connection (the caller may already have taken it off the
+   * connection's queue) nor tracked for timeout, so nothing else would ever
+   * retry or complete it: fail it now, like ares_send_query() does. */
+  end_query(query->channel, server, query, status, NULL);
+  return status;
 }
 
 static ares_status_t read_answers(ares_conn_t *conn, const ares_timeval_t *now)
